@@ -381,3 +381,100 @@ func renumber(ss []*Stmt) []*Stmt {
 	}
 	return cps(ss)
 }
+
+// TermRandom: bodies whose interest lies in what ENDS a block - the decisions of the termination checker and
+// of the implicit return-normal: infinite native loops left by break (in if / else / else-if bodies), if-else
+// chains and switches (with default) whose branches all terminate or not, as LAST statement of a function
+// body, of a loop body, of an if branch, of a case clause or of the code after a yield; no trailing return.
+func TermRandom(r *rand.Rand, depth int) []*Stmt {
+	type ctx struct{ inLoop, inSwitch bool }
+	var list func(d int, c ctx, needYield bool) []*Stmt
+	var last func(d int, c ctx) *Stmt
+	var inner func(d int, c ctx) *Stmt
+	term := func(c ctx) *Stmt { // a terminating simple statement
+		switch k := r.Intn(5); {
+		case k == 0:
+			return &Stmt{K: Ret}
+		case k == 1 && (c.inLoop || c.inSwitch):
+			return &Stmt{K: Break}
+		case k == 2 && c.inLoop:
+			return &Stmt{K: Continue}
+		case k == 3:
+			return &Stmt{K: BPanic}
+		}
+		return &Stmt{K: Ret}
+	}
+	// a native (yield-free) infinite loop left by break somewhere in an if / else / else-if body
+	nativeLoop := func() *Stmt {
+		brk := []*Stmt{{K: Break}}
+		act := []*Stmt{{K: Act}}
+		var body []*Stmt
+		switch r.Intn(5) {
+		case 0:
+			body = []*Stmt{{K: Act}, {K: If, Cond: 0, Body: brk}}
+		case 1:
+			body = []*Stmt{{K: If, Cond: 0, Body: act, Else: &Else{Body: brk}}}
+		case 2:
+			body = []*Stmt{{K: If, Cond: 0, Body: act, Else: &Else{If: &Stmt{K: If, Cond: 0, Body: brk}}}}
+		case 3:
+			body = []*Stmt{{K: If, Cond: 0, Body: act, Else: &Else{If: &Stmt{K: If, Cond: 0, Body: act, Else: &Else{Body: brk}}}}}
+		default:
+			body = []*Stmt{{K: Act}} // never left: fuel exhaustion on both sides
+		}
+		return &Stmt{K: For, Cond: -1, Body: body}
+	}
+	inner = func(d int, c ctx) *Stmt {
+		switch r.Intn(4) {
+		case 0:
+			return &Stmt{K: Act}
+		default:
+			return &Stmt{K: Yield}
+		}
+	}
+	last = func(d int, c ctx) *Stmt {
+		if d == 0 {
+			if r.Intn(3) == 0 {
+				return term(c)
+			}
+			return &Stmt{K: Yield}
+		}
+		switch r.Intn(8) {
+		case 0:
+			return nativeLoop()
+		case 1: // if without else
+			return &Stmt{K: If, Cond: 0, Body: list(d-1, c, false)}
+		case 2: // if / else
+			return &Stmt{K: If, Cond: 0, Body: list(d-1, c, false), Else: &Else{Body: list(d-1, c, false)}}
+		case 3: // if / else if / else
+			return &Stmt{K: If, Cond: 0, Body: list(d-1, c, false),
+				Else: &Else{If: &Stmt{K: If, Cond: 0, Body: list(d-1, c, false), Else: &Else{Body: list(d-1, c, false)}}}}
+		case 4: // switch with default
+			return &Stmt{K: Switch, Tag: 0, Cases: []*Case{{Ks: []int{0}, Body: list(d-1, ctx{c.inLoop, true}, false)},
+				{Default: true, Body: list(d-1, ctx{c.inLoop, true}, false)}}}
+		case 5: // switch without default
+			return &Stmt{K: Switch, Tag: 0, Cases: []*Case{{Ks: []int{0}, Body: list(d-1, ctx{c.inLoop, true}, false)}}}
+		case 6: // loop with a condition, optionally a yielding post
+			f := &Stmt{K: For, Cond: 0, Body: list(d-1, ctx{true, false}, false)}
+			if r.Intn(2) == 0 {
+				f.Post = &Stmt{K: Yield}
+			}
+			return f
+		default:
+			return &Stmt{K: Block, Body: list(d-1, c, false)}
+		}
+	}
+	list = func(d int, c ctx, needYield bool) []*Stmt {
+		var out []*Stmt
+		for i, n := 0, r.Intn(3); i < n; i++ {
+			out = append(out, inner(d, c))
+		}
+		return append(out, last(d, c))
+	}
+	for {
+		l := list(depth, ctx{}, true)
+		if !containsYield(l) {
+			continue
+		}
+		return renumber(l)
+	}
+}
